@@ -121,6 +121,13 @@ class Facts:
                 m.defs[st.name] = st
             elif isinstance(st, ast.Assign):
                 for t in st.targets:
+                    if isinstance(t, (ast.Tuple, ast.List)) and isinstance(st.value, (ast.Tuple, ast.List)) \
+                            and len(t.elts) == len(st.value.elts) and all(isinstance(x, ast.Name) for x in t.elts) \
+                            and not any(isinstance(x, ast.Starred) for x in st.value.elts):
+                        # A, B = 'a', 'b': each name with its own value
+                        for x, v in zip(t.elts, st.value.elts):
+                            m.assigns.setdefault(x.id, []).append(v)
+                        continue
                     for n in _target_names(t):
                         m.assigns.setdefault(n, []).append(st.value if isinstance(t, ast.Name) else None)
             elif isinstance(st, ast.AnnAssign) and isinstance(st.target, ast.Name):
